@@ -1123,16 +1123,21 @@ NP._chain('value_getattr_hook', _cast_getattr)
 # before it is reported, so that a verdict never depends on how busy the machine is.
 _orig_discharge = E.discharge
 BUDGET_WORDS = ('cancel', 'timeout', 'resource', 'interrupted')
+_RETRY_EXHAUSTED = [0]
 
 
 def discharge_retry(run, formula, npc=None, nax=None, timeout_ms=10000, extra=(), rlimit=None):
     base = rlimit if rlimit is not None else int(timeout_ms) * 2500
     v, m, dt = _orig_discharge(run, formula, npc, nax, timeout_ms=timeout_ms, extra=extra, rlimit=base)
     k = 0
-    while v == 'unknown' and k < 2 and any(w in str(m).lower() for w in BUDGET_WORDS):
+    # (after three queries of this process stayed open through both retries the family is genuinely hard -- typically an obligation that
+    # does not hold, with quantifiers: the bounded native search decides it; further retries would only burn time)
+    while v == 'unknown' and k < 2 and _RETRY_EXHAUSTED[0] < 3 and any(w in str(m).lower() for w in BUDGET_WORDS):
         k += 1
         v, m, dt2 = _orig_discharge(run, formula, npc, nax, timeout_ms=timeout_ms * 4 ** k, extra=extra, rlimit=base * 4 ** k)
         dt += dt2
+        if k == 2 and v == 'unknown':
+            _RETRY_EXHAUSTED[0] += 1
     return v, m, dt
 
 
